@@ -604,9 +604,103 @@ func c11MixedTypes(b *core.B) {
 	}
 }
 
+// Struct types that repeat a field name at several embedding depths. Go selects the
+// shallowest one (the struct's own before a promoted one, whatever the order of
+// declaration), and none when two are equally shallow.
+type EBase struct{ Name, Only string }
+type EOther struct{ Name, Other string }
+type EOwnLast struct {
+	EBase
+	Name string
+}
+type EOwnFirst struct {
+	Name string
+	EBase
+}
+type EDeep3 struct{ Label, Deep string }
+type EMid3 struct{ EDeep3 }
+type ETop3 struct{ EMid3 }
+type EMid2 struct{ Label string }
+type ETop2 struct{ EMid2 }
+type EDeepFirst struct {
+	ETop3
+	ETop2
+}
+type EShallowFirst struct {
+	ETop2
+	ETop3
+}
+type EAmbiguous struct {
+	EBase
+	EOther
+}
+type EPtrEmbed struct {
+	*EBase
+	Name string
+}
+type ENested struct {
+	EOwnLast
+	Only string
+}
+
+// c11EmbeddedFields: v.Name is the field Go selects for that name, or a failure.
+func c11EmbeddedFields(b *core.B) {
+	vals := []interface{}{
+		EOwnLast{EBase{"EOwnLast.EBase.Name", "EOwnLast.EBase.Only"}, "EOwnLast.Name"},
+		EOwnFirst{"EOwnFirst.Name", EBase{"EOwnFirst.EBase.Name", "EOwnFirst.EBase.Only"}},
+		EDeepFirst{ETop3{EMid3{EDeep3{"EDeepFirst.ETop3.EMid3.EDeep3.Label", "EDeepFirst.Deep"}}}, ETop2{EMid2{"EDeepFirst.ETop2.EMid2.Label"}}},
+		EShallowFirst{ETop2{EMid2{"EShallowFirst.ETop2.EMid2.Label"}}, ETop3{EMid3{EDeep3{"EShallowFirst.ETop3.EMid3.EDeep3.Label", "EShallowFirst.Deep"}}}},
+		EAmbiguous{EBase{"EAmbiguous.EBase.Name", "EAmbiguous.Only"}, EOther{"EAmbiguous.EOther.Name", "EAmbiguous.Other"}},
+		EPtrEmbed{&EBase{"EPtrEmbed.EBase.Name", "EPtrEmbed.EBase.Only"}, "EPtrEmbed.Name"},
+		ENested{EOwnLast{EBase{"ENested.EOwnLast.EBase.Name", "ENested.EOwnLast.EBase.Only"}, "ENested.EOwnLast.Name"}, "ENested.Only"},
+	}
+	names := []string{"Name", "Only", "Other", "Label", "Deep"}
+	r := b.Rng(0xC11E)
+	for round := 0; round < 4; round++ {
+		order := r.Perm(len(vals))
+		for _, k := range order {
+			v := vals[k]
+			rv := reflect.ValueOf(v)
+			pv := reflect.New(rv.Type())
+			pv.Elem().Set(rv)
+			for _, name := range names {
+				for _, text := range []string{"<%= v.N %>", "<%= pv.N %>", "<%= vs[0].N %>", "<% let x = v %><%= x.N %>", "<%= v.N %>|<%= pv.N %>"} {
+					src := strings.Replace(text, ".N", "."+name, -1)
+					if !b.Begin(fmt.Sprintf("%T: %s", v, src)) {
+						continue
+					}
+					want, ok := "", false
+					if f, found := rv.Type().FieldByName(name); found {
+						want, ok = rv.FieldByIndex(f.Index).String(), true
+						if strings.Contains(text, "|") {
+							want += "|" + want
+						}
+					}
+					ctx := plush.NewContext()
+					ctx.Set("v", v)
+					ctx.Set("pv", pv.Interface())
+					ctx.Set("vs", []interface{}{v})
+					res := render(b, src, ctx)
+					b.NonTrivialStr(fmt.Sprintf("%T", v), src)
+					b.Count("embedded-field:" + map[bool]string{true: "selected", false: "none-or-ambiguous"}[ok])
+					if res.Pan != nil {
+						continue
+					}
+					if ok && (res.Err != nil || res.Out != want) {
+						b.Violate("wrong-element|embedded-field-of-a-repeated-name", fmt.Sprintf("round %d: Go selects %q, got %s", round, want, res))
+					} else if !ok && res.Err == nil && strings.Trim(res.Out, "|") != "" {
+						b.Violate("wrong-element|embedded-field-that-Go-does-not-select", fmt.Sprintf("round %d: Go has no field %s here (missing or ambiguous), got %s", round, name, res))
+					}
+				}
+			}
+		}
+	}
+}
+
 func c11Run(b *core.B) {
 	if b.Batch == 0 {
 		c11MixedTypes(b)
+		c11EmbeddedFields(b)
 	}
 	r := b.Rng(1)
 	nGraphs := 2
